@@ -6,4 +6,5 @@ CONSTANTS
   EmptyGuard = TRUE
   MaxLines = 6
   MinLen = 1
+  EmitProbes = TRUE
   MaxLen = 3
